@@ -13,7 +13,7 @@ func init() {
 	register(&propertyDef{
 		id:    "C12",
 		title: "a step reports a consistent life story under every interleaving",
-		rules: []ruleFunc{c12Traces, c12R5, c12R6, c12R7, c12R8, c12R10, c12R14, c12R16, c12R17, c12R18},
+		rules: []ruleFunc{c12Traces, c12R5, c12R6, c12R7, c12R8, c12R10, c12R14, c12R16, c12R17, c12R18, c12R19},
 		decided: "typestate rules over ALL notification sequences the step goroutine's code can emit (path exploration of the loop-free run() call tree, every select case and unknown flag forked): declared stages in dependency order (R1), declared outputs (R2), " +
 			"no stage finished twice or both finished and failed (R3), exactly one completion preceded by state=finished (R4), every And-successor of a finished stage reported finished or impossible (R9); closers mark closed first and wait (R5); every input hand-over is once-guarded and cannot block (R6); " +
 			"every channel that is closed has its sends and its close under one mutex with a marker test (R7); stage/state writes hold the step lock (R8). Shared: step goroutines are registered with the wait group before they start, so nothing is notified after Close/ForceClose returned (R10 = C05.R3). No goroutine counted in a step's WaitGroup waits on that group (R14).",
@@ -591,4 +591,44 @@ func c12R18(c *Ctx) {
 		})
 	}
 	c.minCount(rule, "stage inputs with an effect", n, 4)
+}
+
+// C12.R19 nobody releases a lock that its caller took.
+func c12R19(c *Ctx) {
+	const rule = "C12.R19"
+	c.explain("C12.R19 in the step providers, every (non-deferred) Unlock of a step lock is dominated by a Lock of the same lock in the same function: a helper that is called with the step lock held and lets go of it in the middle (to re-take it later) splits its caller's critical section — the once-only test of an input flag and the setting of that flag are then two critical sections, and two overlapped provisions both pass the test")
+	n := 0
+	cnt := map[string]int{}
+	for _, fn := range c.RepoFns {
+		if c.excluded(fn) {
+			continue
+		}
+		if p := pkgPathOf(fn); p != pkgPlugin && p != pkgForeach {
+			continue
+		}
+		eachInstr(fn, func(r instrRef) {
+			if _, isDefer := r.I.(*ssa.Defer); isDefer {
+				return
+			}
+			fv, isLock, ok := lockOp(r.I)
+			if !ok || fv == nil || isLock || !isStepLock(fv) {
+				return
+			}
+			n++
+			taken := false
+			eachInstr(fn, func(r2 instrRef) {
+				if _, isDefer := r2.I.(*ssa.Defer); isDefer {
+					return
+				}
+				f2, isLock2, ok2 := lockOp(r2.I)
+				if ok2 && isLock2 && f2 == fv && dominates(r2.I, r.I) {
+					taken = true
+				}
+			})
+			cnt[c.fnName(fn)]++
+			key := fmt.Sprintf("unlock@%s#%d", c.fnName(fn), cnt[c.fnName(fn)])
+			c.verdict(taken, rule, key, c.instrPos(r.I), "the function took the lock it releases", c.fnName(fn)+" releases the step lock without having taken it: it lets go of its caller's lock in the middle of the caller's critical section")
+		})
+	}
+	c.minCount(rule, "explicit unlocks of step locks", n, 8)
 }
